@@ -66,8 +66,15 @@ Definition wald_B (alpha beta : Q) : Q := (1 - beta) / alpha.
 (* confidence intervals: level used by the solvers after the two-sided split *)
 Definition split_level (cl : Q) : Q := 1 - (1 - cl) / (2 # 1).
 
+(* adjust_p: the vectorised base values, entrywise (x = p-value, rk = its min / max rank) *)
+Definition adj_holm (x n rk : Q) : Q := Qmin (x * (n - rk + 1)) 1.
+Definition adj_bonf (x n : Q) : Q := Qmin (x * n) 1.
+Definition adj_bh (x n rk : Q) : Q := Qmin (x * (n / rk)) 1.
+(* westfall_young: permutation p-value of a simulated row: (#{>=} + [<= observed]) / (reps+1), #{>=} = L - rank_min + 1 *)
+Definition wy_ps (L Rk I r : Q) : Q := (L - Rk + 1 + I) / (r + 1).
+
 Ltac formula_tac :=
-  intros; cbv beta delta [mc_pvalue npc_row npc_final wald_A wald_B split_level] iota;
+  intros; cbv beta delta [mc_pvalue npc_row npc_final wald_A wald_B split_level adj_holm adj_bonf adj_bh wy_ps] iota;
   first [reflexivity | field; auto | lra].
 
 (* the tactic used by the generated obligations: case analysis on every min, then linear arithmetic *)
